@@ -169,6 +169,13 @@ def handle (t : Tbl) : List String → Tbl × String
     match x.toInt?, y.toInt? with
     | some x, some y => (t, s!"ok {getValue t x y} {Grid.getValue (absT t) x y}")
     | _, _ => (t, "bad-op")
+  | ["travrows", s, e] =>
+    -- Table.traverse(start, end): `y=cells` of every yielded row (its repeat removed), in order
+    match s.toNat?, (if e == "N" then some none else e.toNat?.map some) with
+    | some s, some e =>
+      let l := tableTraverse t s e
+      (t, "ok " ++ (if l.isEmpty then "-" else ";".intercalate (l.map (fun p => s!"{p.1}={encCells p.2.1}:{match p.2.2 with | none => "N" | some k => toString k}"))))
+    | _, _ => (t, "bad-op")
   | "op" :: rest =>
     match applyOp t rest with
     | none => (t, "bad-op")
